@@ -265,9 +265,11 @@ def units(tier, seed):
         Unit('twin_reachability', twin, None, _setup, F[:1], 'assert False must be violated', expect_cex=True),
     ]
     if tier == 'thorough':
-        us.append(Unit('loads_table_all', rows_prop, rows_replay, _setup, F[2:3],
-                       'symbolic load value at every one of the 8760 positions (forked), value all reals',
-                       max_seconds=3000, max_paths=10000))
+        for sh in range(16):
+            pos = list(range(sh, 8760, 16))
+            us.append(Unit('loads_table_shard%02d' % sh, rows_prop_sampled(pos), rows_replay, _setup, F[2:3],
+                           'symbolic load value at every 16th position starting at %d (all 8760 positions over the 16 shards), value all reals' % sh,
+                           max_seconds=3000, max_paths=10000))
     else:
         pos = sorted({0, 1, 23, 24, 743, 744, 1415, 1416, 8735, 8736, 8759} | {rnd.randrange(8760) for _ in range(13)})
         us.append(Unit('loads_table_sampled', rows_prop_sampled(pos), rows_replay, _setup, F[2:3],
